@@ -181,13 +181,14 @@ class Wrapper:
             Application descriptor.
         """
         if application not in self._descriptors:
-            updates = set(self._inventory.list()).difference(self._descriptors)
-            self._descriptors.update({a: None for a in updates})
-            if application not in updates:
+            for update in set(self._inventory.list()).difference(self._descriptors):
+                self._descriptors.setdefault(update, None)
+            if application not in self._descriptors:  # might have been added by a concurrent lookup
                 raise forml.MissingError(f'Application {application} not found in {self._registry}')
-        if not self._descriptors[application]:
-            self._descriptors[application] = self._inventory.get(application)
-        return self._descriptors[application]
+        descriptor = self._descriptors[application]
+        if not descriptor:
+            descriptor = self._descriptors[application] = self._inventory.get(application)
+        return descriptor
 
     @staticmethod
     def _dispatch(
